@@ -41,6 +41,12 @@ HAND = [
     "function f(n, c) { var acc; var i = 0; while (i < n) { acc = 7; i += 1; if (c) { acc = 3 + 4; } } if (acc == 7) { return 1; } return 2; }",
     "function f(a, b) { var x; var y = 0; if (a) { x = 4; if (b) { x = 4; if (a == 2) { x = 2 * 2; } } } y = x + 1; if (y == 5) { return 1; } return 2; }",
     "function f(a, b) { var x; for (var i = 0; i < 2; i++) { if (a) { x = 9; } else { if (b) { x = 9; } } } if (x == 9) { return 1; } return 2; }",
+    # literals that are not smaller than the prime (the three primes and a 64-bit mask, which exceeds the Goldilocks prime)
+    "function f(c) { var s = 21888242871839275222246405745257275088548364400416034343698204186575808495617 ? 1 : 2; if (s == 2) { return 1; } return 2; }",
+    "function f(c) { var s = 52435875175126190479447740508185965837690552500527637822603658699938581184513 ? 1 : 2; if (s == 2) { return 1; } return 2; }",
+    "function f(c) { if ((0xFFFFFFFFFFFFFFFF >> 32) == 0) { return 1; } return 2; }",
+    "function f(c) { var a = 21888242871839275222246405745257275088548364400416034343698204186575808495618; if ((a & 1) == 1) { return 1; } if ((2 ** a) == 2) { return 3; } return 2; }",
+    "function f(c) { var a = 18446744069414584321 + 2; if ((18446744069414584323 >> 1) == 1) { return 1; } if (a == 2) { return 3; } return 2; }",
     # a signal whose only assignment is not on every path to the read (audit C06 f1): unassigned, it is 0 in the witness
     "template T() { signal input in; signal output out; signal s; if (in == 0) { s <-- 1; } if (s == 1) { out <-- 2; } else { out <-- 3; } }",
     "template T() { signal input in; signal output out; signal s; var k = 0; if (s == 1) { k = 5; } else { k = 6; } s <== 1; out <-- k; }",
@@ -145,7 +151,8 @@ def run(ctx):
                 if (int(t, 16) if t.startswith("0x") else int(t)) >= p:
                     return False
             return True
-        pairs = [(s, o) for s, o in zip(srcs, obs) if "ssa" in o and literals_in_range(s)]
+        # a literal that is not smaller than the prime is read modulo the prime (the compiler reduces literals while lexing; audit C16 f1, f2)
+        pairs = [(s, o) for s, o in zip(srcs, obs) if "ssa" in o]
         res = proplib.model_annotations([o["ssa"] for s, o in pairs], [p] * len(pairs))
         pc = vlib.run_model(["phicomplete " + vlib.sexp(o["ssa"]) for s, o in pairs])
         ph = vlib.run_model(["pathhyps " + vlib.sexp(o["ssa"]) for s, o in pairs])
